@@ -241,6 +241,25 @@ def check_pipelines(rep, prog, fm, cfg):
         rep.check(ok, rule, "%s: PH, UH, considerPEL(uh, config) in order; sections decoded only for selected PELs" % fn, PT + fn, fn,
                   "%s does not run the selection pipeline generatePH -> generateUH -> considerPEL(user header, config) before "
                   "decoding: %s" % (fn, names))
+    # (a') both decoders reach the selection test under the same conditions: a check only one of them makes (a size limit,
+    # an extra sanity test) makes --all-pels drop PELs that --list / --show-pel-count still report
+    import re as _re
+    reach = {}
+    for fn in ("parsePEL", "parsePELSummary"):
+        I = Interpreter(prog, hooks={"opaque": {PT + "sectionFun", PT + "considerPEL", PT + "prettyPrint", PT + "buildOutput",
+                                                PT + "generatePH", PT + "generateUH"}})
+        st = pelx.new_stream(I)
+        c = I.new("pel.peltool.config.Config")
+        I.call(PT + fn, [st, c] + ([Const(False)] if fn == "parsePEL" else []))
+        cps = [e for e in I.events if e.kind == "opaquecall" and e.data[0] == PT + "considerPEL"]
+        if cps:
+            reach[fn] = {_re.sub(r"&[a-z]+\d+", "&", repr(x)) for x in conj(cps[0].guard)}
+    if len(reach) == 2:
+        only_all = sorted(reach["parsePEL"] - reach["parsePELSummary"])
+        only_sum = sorted(reach["parsePELSummary"] - reach["parsePEL"])
+        rep.check(not only_all and not only_sum, rule, "parsePEL and parsePELSummary reach the selection test under the same conditions", PT + "parsePEL",
+                  "considerPEL(...)", "the full decode and the summary decode do not accept the same logs before the selection test: only the full "
+                  "decode requires %s, only the summary requires %s" % ([x[:100] for x in only_all], [x[:100] for x in only_sum]))
     # (b) count mode inline pipeline and single increment
     q = PT + "printPELCount"
     seq = [e for e in fm.events if e.kind == "opaquecall" and q in e.stack and e.data[0] in (PT + "generatePH", PT + "generateUH", PT + "considerPEL")]
